@@ -178,6 +178,14 @@ def analyse_function(fn, minfo, all_written_globals, all_funcs_by_module):
         if isinstance(n, ast.Call) and isinstance(n.func, ast.Name) and n.func.id in ("id", "hash") and \
                 n.func.id not in local:
             note(reads, "builtin %s()" % n.func.id, n)
+    # decorators (functools.lru_cache & co. keep state across calls) and mutable default arguments
+    for d in fn.decorator_list:
+        name = ast.unparse(d)
+        if name not in ("staticmethod", "classmethod", "property"):
+            note(reads, "decorator @%s" % name.split("(")[0], d)
+    for d in list(fn.args.defaults) + [x for x in fn.args.kw_defaults if x is not None]:
+        if not _is_const_expr(d):
+            note(reads, "mutable default argument", d)
     return writes, reads
 
 
